@@ -10,7 +10,7 @@ RULE = ("one PRNG(seed): hybrid tensors with 1..5 modes, per-mode format (TT|CP)
         "entries, in the variants generic | illcond (Tucker factors with condition number 10..1e6 and scale 1e-2..1e2) | rankdef "
         "(rank-deficient bonds, collinear CP columns) | zero (a zero core or factor) | overrank (ranks up to 9 on modes of size 2..3) | "
         "scaled (a core or factor scaled by 1e-4..1e4) | decay (bond/column j weighted by q^j, q in {.5,.1,.01}) | tinynorm (norm of the "
-        "tensor 1e-16..1e-14); each through round_tt, "
+        "tensor 1e-16..1e-14); a float32 stream (generic/decay tensors cast to float32 at overall norms 1e-11..1e2, eps 0.01..0.4, bound eps*1.05+5e-3 plus 1e-5 of the representation scale); each through round_tt, "
         "round_tucker (occasionally with dim=subset) and round, as in-place method on a clone or as copying tn.round*; "
         "eps log-uniform in [1e-6, 0.5], or (half of the cases) 1..1.3 times the value at which some unfolding of the dense input just "
         "crosses a truncation boundary, or eps=1e-12 with algorithm svd (the rank-revealing clause); algorithm svd|eig; rmax none | "
@@ -623,13 +623,62 @@ _orig_cases = cases
 _orig_run_case = run_case
 
 
+def _f32_cases(rng, tier):
+    """float32 tensors at overall scales 1e-11..1e2 ("badly scaled" in the working precision of most users: torch's default dtype)"""
+    out = []
+    for _ in range({"quick": 40, "thorough": 300, "search": 150}[tier]):
+        N = rng.choice([2, 3, 3, 4])
+        variant = rng.choice(["generic", "generic", "decay"])
+        t = _mk_variant(rng, variant, N)
+        out.append({"kind": "f32", "variant": variant, "t": t.to_json(), "scale": 10 ** rng.uniform(-11, 2), "eps": 10 ** rng.uniform(-2, -0.4),
+                    "copying": [rng.random() < 0.4 for _ in OPS], "where": rng.randrange(N)})
+    return out
+
+
+def _run_f32(ctx, case):
+    t0 = PT.from_json(case["t"])
+    nx0 = frob(t0.dense())
+    if nx0 == 0:
+        return
+    n = case["where"]
+    t0.cores[n] = t0.cores[n] * (case["scale"] / nx0)
+    tt64 = t0.to_tn()
+    tt = tn.Tensor([c.float() for c in tt64.cores], Us=[None if U is None else U.float() for U in tt64.Us])
+
+    def as_pt(z):
+        return from_tn(tn.Tensor([c.detach().double() for c in z.cores], Us=[None if U is None else U.detach().double() for U in z.Us]))
+    t = as_pt(tt)
+    x = t.dense(); nx = frob(x); S = rep_scale(t); eps = case["eps"]
+    f = features(t, x)
+    ctx.case(("round* float32", t.sig(), case["variant"], int(math.floor(math.log10(case["scale"]))), int(math.floor(math.log10(eps)))), t.nontrivial(),
+             {"ops": OPS, "t": t.describe(), "dtype": "float32", "norm": nx, "eps": eps})
+    ctx.count("float32 tensors"); ctx.count("float32 norm 1e%d" % int(math.floor(math.log10(nx))) if nx > 0 else "float32 norm 0")
+    for op, copying in zip(OPS, case["copying"]):
+        def impl():
+            if copying:
+                return getattr(tn, op)(tt, eps=eps)
+            r_ = tt.clone(); getattr(r_, op)(eps=eps); return r_
+        res = safe(impl)
+        if res[0] == "err":
+            report(ctx, case, op, f, "raised", "float32 input: raised %s: %s" % (res[1], res[2])); continue
+        y = as_pt(res[1]).dense()
+        if y.shape != x.shape:
+            report(ctx, case, op, f, "shape changed", "float32 input: shape %s -> %s" % (x.shape, y.shape)); continue
+        err = frob(x - y)
+        # float32 working precision: eps with 5% slack, 5e-3 for the dot-product based error estimates, 1e-5 of the representation's scale
+        if err > (1.05 * eps + 5e-3) * nx + 1e-5 * S:
+            report(ctx, case, op, f, "error > eps", "float32 input of norm %.3e: relative error %.3e > eps %.3e" % (nx, err / nx if nx else float("inf"), eps))
+
+
 def cases(rng, tier):  # noqa: F811
-    return _orig_cases(rng, tier) + _corr_cases(rng, tier) + _sweep_cases(rng, tier)
+    return _orig_cases(rng, tier) + _corr_cases(rng, tier) + _sweep_cases(rng, tier) + _f32_cases(rng, tier)
 
 
 def run_case(ctx, case):  # noqa: F811
     if case.get("kind") == "sweep":
         return _run_sweep(ctx, case)
+    if case.get("kind") == "f32":
+        return _run_f32(ctx, case)
     if case.get("kind") != "corr":
         return _orig_run_case(ctx, case)
     import numpy as np, torch
